@@ -57,11 +57,11 @@ type Result struct {
 
 // Options of an exploration.
 type Options struct {
-	Budgets       []Budget // iterative deviation bounding; default: one unbounded run
-	Prune         bool     // history-hash pruning
-	Deadline      time.Time
-	MaxSteps      int // per execution; default 100000
-	TimerOrder    TimerOrder
+	Budgets    []Budget // iterative deviation bounding; default: one unbounded run
+	Prune      bool     // history-hash pruning
+	Deadline   time.Time
+	MaxSteps   int // per execution; default 100000
+	TimerOrder TimerOrder
 	// DelayBounded (added for C14; default off = preemption bounding as before): P counts every
 	// deviation from the canonical run-to-block schedule, not only preemptions. When the current
 	// goroutine cannot continue, the first enabled non-environment goroutine in creation order runs
@@ -76,10 +76,19 @@ type Options struct {
 	// removes the 2^n placements of ticks nobody waits for (time.After of a goroutine that has
 	// exited, a ticker whose reader is busy elsewhere). AfterFunc timers are not affected.
 	LazyTimers bool
-	Root          []int // fixed choice prefix (the subtree to explore)
-	FrontierDepth int   // >0: cut every execution at that many choice points and collect the prefixes in Stats.Roots
-	MaxViolations int   // stop after that many violations; default 1
-	Samples       int   // number of sample executions to keep; default 3, <0 none
+	// DeviationBounded (added for the C15 long-backlog family; default off): with a finite P, EVERY
+	// alternative of a choice point other than the default one (the first alternative that is free
+	// under the rules above) costs one unit of P - also select alternatives, Choose values and
+	// non-preemptive switches. P=k is then "all schedules that differ from the canonical one in at
+	// most k decisions": linear/quadratic in the length of the execution instead of exponential.
+	// Shard/NShards (NShards>1) split that space over processes by the depth of the FIRST deviation
+	// (depth mod NShards == Shard); the union over all shards is the whole P-bounded space.
+	DeviationBounded bool
+	Shard, NShards   int
+	Root             []int // fixed choice prefix (the subtree to explore)
+	FrontierDepth    int   // >0: cut every execution at that many choice points and collect the prefixes in Stats.Roots
+	MaxViolations    int   // stop after that many violations; default 1
+	Samples          int   // number of sample executions to keep; default 3, <0 none
 }
 
 // Violation is one execution on which the oracle (or the scheduler: deadlock, panic) failed.
@@ -145,6 +154,7 @@ type explorer struct {
 	stats     *Stats
 	roots     [][]int
 	nstates   int64
+	nchoice   int64 // choice points expanded beyond the replayed prefix, over all runs (not deduplicated)
 	skipped   int64
 	arena     []uint8 // (dp,de) per alternative of every frame, in frame order
 	succ      []H     // predicted successor key per alternative (zero: unknown), in frame order
@@ -215,6 +225,28 @@ func (e *explorer) choose(s *sched, ts []trans) (int, Status) {
 			}
 			if e.budget.E >= Unbounded {
 				ts[i].de = 0
+			}
+		}
+	}
+	if e.opt.DeviationBounded && e.budget.P < Unbounded {
+		// deviation bounding: the first free alternative is THE default; every other one costs a unit
+		def := -1
+		for i := range ts {
+			if ts[i].dp == 0 && ts[i].de == 0 {
+				def = i
+				break
+			}
+		}
+		first := e.remP == e.budget.P // no deviation made yet on this path
+		for i := range ts {
+			if i == def {
+				continue
+			}
+			if ts[i].dp == 0 {
+				ts[i].dp = 1
+			}
+			if first && e.opt.NShards > 1 && d%e.opt.NShards != e.opt.Shard {
+				ts[i].dp = 250 // the first deviation at this depth belongs to another shard
 			}
 		}
 	}
@@ -298,6 +330,7 @@ func (e *explorer) choose(s *sched, ts []trans) (int, Status) {
 	e.remP -= int(costs[2*f.idx])
 	e.remE -= int(costs[2*f.idx+1])
 	e.frames = append(e.frames, f)
+	e.nchoice++
 	return f.idx, 0
 }
 
@@ -518,6 +551,7 @@ func Explore(fac Factory, opt Options) *Stats {
 		}
 	}
 	st.States = e.nstates
+	st.ChoicePoints = e.nchoice
 	st.Skipped = e.skipped
 	st.DistinctOutcomes = int64(len(e.outcomes))
 	st.Roots = e.roots
